@@ -35,6 +35,7 @@ C12CtxText == "(def x 7) (def xs (list 1 2)) (def v [3 4]) (def em ()) (def w '(
            "(defmacro mx (fn [a] `(let [x 1] (list x ~a)))) " \o
            "(defmacro mempty (fn [& r] ())) " \o
            "(defmacro mcall (fn [& xs] `(~@xs))) " \o
+           "(defmacro mnest (fn [a] `(do (list 0 (nth [1] ~a))))) " \o
            "(def f1 (fn [a] (list a a)))"
 C12CtxForms == ReadAll(C12CtxText)
 
@@ -51,7 +52,9 @@ C12GM == Grammar(
   <<"(m1 _1)", "(m3 _1)", "(f1 _1)", "(m4 _1)", "(mx _1)", "(mempty _1)", "(mcall list _1)", "(macroexpand (m1 _1))", "(eval (macroexpand (m1 _1)))",
     "(macroexpand (m4 _1))", "(eval (macroexpand (m4 _1)))", "(or _1)", "(and _1)", "(-> _1 inc)",
     "(cond _1 :c)", "(let [m1 f1] (m1 _1))", "(macroexpand (m2 _1))", "(macroexpand (f1 _1))",
-    "(let [m3 (fn [a] :local)] (macroexpand (m3 _1)))">>,
+    "(let [m3 (fn [a] :local)] (macroexpand (m3 _1)))",
+    \* an error raised by a form nested inside the expansion (its position is the macro call's) / a threading chain failing inside
+    "(mnest _1)", "(-> _1 (nth 7) (or 0))">>,
   <<"(m2 _1 _2)", "(or _1 _2)", "(and _1 _2)", "(cond _1 _2)", "(-> _1 (list _2))", "(->> _1 (list _2))",
     "(macroexpand (or _1 _2))", "(eval (macroexpand (or _1 _2)))", "(m5 _1 _2)", "(macroexpand (m5 _1 _2))",
     "(eval (macroexpand (and _1 _2)))", "(macroexpand (cond _1 _2))">>,
